@@ -1,6 +1,7 @@
 package main
 
 import (
+	_ "embed"
 	"fmt"
 	"os"
 	"path/filepath"
@@ -846,24 +847,34 @@ func (ps *parseStream) eval(sql string, ansi bool) (res string) {
 	return b.String()
 }
 
-// witnesses: the reproducers of the known printer defects and a few texts around them, always run first.
+//go:embed corpus.txt
+var corpusText string
+
+// witnesses: the corpus of the property (corpus.txt) — one minimal witness per known finding, one per repaired defect
+// (these must pass) and texts around them. Always run first, independent of the seed.
 func (ps *parseStream) witnesses() {
-	for _, s := range []string{
-		"select - -1", "select -(-1)", "select - - 1", "select 1 - -1", "select -1", "select + -1", "select - +1", "select -a", "select - -a",
-		"select ! !true", "select !true", "select not not true",
-		"select first_value(a) ignore nulls over (order by b)", "select lag(a) ignore nulls over (order by b)", "select first_value(a) over (order by b)",
-		"select `a b`(1)", "select `abc`(1)", "select a from (select a from https://example.com/t.csv )", "select a from https://example.com/t.csv",
-		"select 'it''s', \"q\", `a b`, 'a\\'b', 'x\ny'", "select 1; select 2", "select", "", "select 'abc", "select 1 /* c", "select !! true", "select ",
-	} {
+	for ln, line := range strings.Split(corpusText, "\n") {
+		if strings.TrimSpace(line) == "" || strings.HasPrefix(line, "#") {
+			continue
+		}
+		f := strings.SplitN(line, "\t", 4)
+		if len(f) != 4 {
+			panic(fmt.Sprintf("corpus.txt line %d: want 4 tab-separated fields", ln+1))
+		}
+		text, err := strconv.Unquote(strings.TrimSpace(f[3]))
+		if err != nil {
+			panic(fmt.Sprintf("corpus.txt line %d: %v", ln+1, err))
+		}
+		eval := f[1] == "1"
+		ps.o.Count("corpus.expect:" + f[2])
 		for m := 0; m < 4; m++ {
-			ps.one(s, m&1 != 0, m&2 != 0, "witness", false)
+			prep, ansi := m&1 != 0, m&2 != 0
+			if f[0] == "p0" && prep || f[0] == "p1" && !prep {
+				continue
+			}
+			ps.one(text, prep, ansi, "witness", eval && !prep)
 		}
 	}
-	for _, s := range []string{"select - -1", "select -(-1)", "select 1 - -1", "select !(!true)", "select 1 + 2 * 3, 'a' || 'b', 7 % 3, -7 / 2", "select case when 1 < 2 then 'x' else 'y' end",
-		"select 2 + 3 !! * 4", "select 2 + 3 * 4", "select 1 = 2 !! / 3 = 4"} {
-		ps.one(s, false, false, "witness", true)
-	}
-	ps.one("select ?, :a, ?", true, false, "witness", false)
 }
 
 func (ps *parseStream) run(n int) {
